@@ -4,10 +4,10 @@ from rules import tables as T
 
 
 def run(ctx):
-    M.ord1_dictionary_sorted(ctx)
-    M.tbl2_codec_properties(ctx)
-    M.tbl3_comparison_registry(ctx)
-    T.tbl17_constant_translation_is_inverse(ctx)
+    ctx.run(M.ord1_dictionary_sorted)
+    ctx.run(M.tbl2_codec_properties)
+    ctx.run(M.tbl3_comparison_registry)
+    ctx.run(T.tbl17_constant_translation_is_inverse)
     return ctx.finish(
         'Static rules: the string dictionary is sorted before indices are assigned (range '
         'predicates run on dictionary indices), a codec op is declared order-/summation-preserving '
